@@ -6,9 +6,12 @@ from .facts import stmt_tree_text, expr_text
 
 
 class Renamer:
-    def __init__(self, fn=None, params_positional=True):
+    def __init__(self, fn=None, params_positional=True, params_by_name=False):
         self.map = {}
-        if fn is not None and params_positional:
+        if fn is not None and params_by_name:
+            for i, p in enumerate(fn.params):
+                self.map[p['d']] = '$' + p['n']
+        elif fn is not None and params_positional:
             for i, p in enumerate(fn.params):
                 self.map[p['d']] = 'p%d' % i
 
